@@ -15,6 +15,7 @@ LEVEL_TEXT["C16"] = (
     "of length <= 7; scale-, offset- and 1-ulp value classes of corr are held to the same references (r, rho, tau are invariant under scaling and translation; Pearson "
     "for scales / spreads within 1e-70..1e70, beyond that its range limit is only measured). The model of _pearson_corr is literal (mean pass, centred sums, the product form with "
     "the residual sum_x*sum_y still subtracted); pearson_eq_pearsonM proves that over the reals the centring changes nothing, so every Pearson theorem is about the code's formula."
+    " REGENERATED TIE (Props/C16Gen): the MedianFilter constructor, _update_sort (its two bounded while-walks as fuel-bounded recursions) and the process loop body are translated from the C++ on every run and proved equal to the model (medianCtor_eq, updateSort_eq, medianStep_eq); T16.3 is restated from the generated constructor through the generated run (gen_medianFilter_from_ctor). "
 )
 
 PROPS["C16"] = {
